@@ -95,7 +95,27 @@ def run_case(c):
     nontrivial = bool(scale > 0 and np.abs(offdiag).max() > 1e-6 * scale) if n > 1 else bool(scale > 0)
     ph.generate_displacements(distance=c["distance"], is_plusminus=c["is_plusminus"], is_diagonal=c["is_diagonal"])
     ndisp = len(ph.dataset["first_atoms"])
-    ph.forces = setup.harmonic_forces_type1(ph, fc)
+    # the forces reach phonopy through either documented route and in whatever container / memory layout the caller holds them
+    import copy
+
+    from vlib.gen.layout import relayout
+
+    lrng = np.random.default_rng(c.get("mseed", 0) + 11)
+    F = setup.harmonic_forces_type1(ph, fc)
+    route = ["forces_setter", "dataset_setter"][int(lrng.integers(2))]
+    if route == "forces_setter":
+        f_in, fkind = relayout(F, lrng)
+        ph.forces = f_in
+    else:
+        ds = copy.deepcopy(ph.dataset)
+        fkind = "per-displacement"
+        from vlib.gen.layout import KINDS
+
+        for d_, f_ in zip(ds["first_atoms"], F):
+            # (numpy arrays only: the per-displacement 'forces' entry of a type-1 dataset is documented without a type and a plain list is
+            # refused with a TypeError by the solver - a refusal, not a wrong result)
+            d_["forces"], fkind = relayout(f_, lrng, kind=[k for k in KINDS if k != "list"][int(lrng.integers(len(KINDS) - 1))])
+        ph.dataset = ds
     ph.produce_force_constants(calculate_full_force_constants=c["full"])
     got = np.array(ph.force_constants)
     p2s = np.array(ph.primitive.p2s_map)
@@ -126,7 +146,7 @@ def run_case(c):
         "viol": viol, "nontrivial": nontrivial, "key": key,
         "obs": {"max_rel_err": 0, "spacegroups": [sg] if sg else [], "natoms": [n], "ndisp_total": ndisp,
                 "compact_cases": int(not c["full"]), "nosym_cases": int(not c["is_symmetry"]), "model_" + c["model"]: 1,
-                "nprim_lt_nsuper": int(len(p2s) < n)},
+                "nprim_lt_nsuper": int(len(p2s) < n), "route_" + route: 1, "forces_layout_" + fkind: 1},
         "maxerr": (err / scale) if (err is not None and scale) else None,
         "sample": {"crystal": c["crystal"], "smat": c["smat"], "pmat": c["pmat"], "options": [c["is_plusminus"], c["is_diagonal"], c["distance"], c["full"], c["is_symmetry"]],
                    "model": c["model"], "natom": n, "ndisp": ndisp, "rel_err": (err / scale) if (err is not None and scale) else None},
